@@ -131,7 +131,8 @@ impl Iface {
 }
 
 const METHOD_NAMES: [&str; 10] = ["Get", "GetURL", "Get2FA", "Type", "SetIPv6Addr", "X", "ListAllTheThings", "Match", "DoIt2", "HTTPGet"];
-const FIELD_NAMES: [&str; 16] = ["a", "userName", "user_name", "type", "URL", "x2", "match", "isOK", "fn", "ipV6", "async", "B", "x86_64", "MAX_SIZE", "a_1b", "v1_2_3"];
+// (the last six are names of locals and members that generated code is likely to use itself)
+const FIELD_NAMES: [&str; 22] = ["a", "userName", "user_name", "type", "URL", "x2", "match", "isOK", "fn", "ipV6", "async", "B", "x86_64", "MAX_SIZE", "a_1b", "v1_2_3", "method", "parameters", "call", "reply", "conn", "params"];
 const VARIANT_NAMES: [&str; 13] = ["one", "two_three", "Active", "IPv6", "camelCase", "type", "X", "ok2", "x86_64", "MAX_SIZE", "a_b_c9", "v1_2_3", "utf_8"];
 const ERROR_NAMES: [&str; 6] = ["NotFound", "NotOK", "E2BIG", "Type", "X", "InvalidURLGiven"];
 const TYPE_NAMES: [&str; 5] = ["T", "MyURL", "Ab9", "Type", "IPv6Addr"];
